@@ -250,7 +250,9 @@ impl Renderer {
                 Cause::ErrexitAndOrLast(s) => format!("set -e\ntrue && simexit {s}"),
                 Cause::BangExit(n) => format!("! exit {n}"),
                 Cause::Exec(n) => format!("exec xexit {n}"),
-                Cause::DebugExit(n) => format!("trap \"exit {n}\" DEBUG\n:"),
+                // (one line: with the trap armed and the input ending before the next command,
+                // the handler would pre-empt the EXIT handler's own commands - in bash as well)
+                Cause::DebugExit(n) => format!("trap \"exit {n}\" DEBUG; :"),
             },
         }
     }
